@@ -396,7 +396,15 @@ def gen_misuse(rng, models, state, only=None, first=None):
                 if big:
                     hows = {'lp': ['min', 'max'], 'socp': ['min', 'max'], 'gcp': ['min', 'max'], 'ro': ['min', 'max', 'minmax', 'maxmin'], 'dro': ['min', 'max', 'minsup', 'maxinf']}[A['kind']]
                     how = rng.choice(hows)
-                    o = dict(mk, op='obj', m=pa + 'm', how=how, e=['v', pa + rng.choice(big)])
+                    vn = rng.choice(big)
+                    sz = dict(A['dvars'])[vn]
+                    vv = ['v', pa + vn]
+                    # the whole array, slices that still hold several entries, and vector expressions
+                    forms = [vv, vv, ['i', vv, [0, 2]], ['i', vv, [1, sz]] if sz > 2 else ['i', vv, [0, sz]],
+                             ['i', vv, {'l': [0, sz - 1]}], ['*', ['c', 2.0], vv], ['+', vv, ['c', 1.0]], ['neg', vv]]
+                    if A['kind'] == 'dro':
+                        forms += [['E', vv], ['E', ['i', vv, [0, 2]]]]
+                    o = dict(mk, op='obj', m=pa + 'm', how=how, e=rng.choice(forms))
                     if how in ('minmax', 'maxmin'):
                         o['set'] = []
                     if how in ('minsup', 'maxinf'):
